@@ -29,7 +29,9 @@ def configs(ctx):
 
 def check(ctx):
     items = configs(ctx)
-    findings, cmp_, diff, samples, counts = run_items(ctx, 'C13', [(dwtlib.w_swt, items)], min_cmp=50)
+    sib = [('atrous-prepared', m, nf, Lc, Lr, H, W) for m in ('periodization', 'periodic')
+           for (nf, Lc, Lr) in ((2, 4, 4), (4, 4, 6), (2, 6, 6)) for (H, W) in ((8, 12), (16, 8))]
+    findings, cmp_, diff, samples, counts = run_items(ctx, 'C13', [(dwtlib.w_swt, items), (dwtlib.w_sibling, sib)], min_cmp=50)
     cov = {'programs': cmp_, 'disagreements_checked': diff, 'samples': samples or [{'note': 'none'}],
            'rule': 'each program = SWTForward(J, wavelet, mode in {default, periodization, periodic}) on a symbolic '
                    '(N,C,H,W) input with H, W multiples of 2^J, compared per level and band (A,H,V,D) with the frozen '
